@@ -281,7 +281,7 @@ func TestC07Tunnel(t *testing.T) {
 		}
 		entry := cl.Nodes[c.Pick("entry", 2)]
 		if !WaitRoutable(cl.Nodes[1], cl.Nodes[0], "t1", Deadline()) {
-			c.Fatalf("C07: endpoint did not propagate")
+			Missf(c, "C07: endpoint did not propagate")
 		}
 		via := c.OneOf("client", "dialer", "forwarder")
 		c.Header["upstream"], c.Header["entry"], c.Header["client"], c.Header["bytes"], c.Header["proxy_timeout_ms"] = kind, entry.ID, via, total, proxyTimeout.Milliseconds()
@@ -350,6 +350,11 @@ func TestC07Tunnel(t *testing.T) {
 					time.Sleep(proxyTimeout + 400*time.Millisecond) // outlive the request timeout mid-stream
 				}
 				if w, err := conn.Write(streamBytes(off, n)); err != nil || w != n {
+					if upstreamCloses && off == total && n == 0 {
+						// everything has been written and echoed, so the upstream has closed
+						// (or is closing) its end: an empty write may now fail
+						return
+					}
 					werr = fmt.Sprintf("write of %d bytes returned %d, %v", n, w, err)
 					return
 				}
@@ -377,11 +382,11 @@ func TestC07Tunnel(t *testing.T) {
 		} else {
 			conn.Close()
 			if !Eventually(Deadline(), func() bool { return up.TCPClosed.Load() > closedBefore-0 && up.TCPClosed.Load() >= 1 }) {
-				c.Fatalf("C07: the client closed the tunnel but the upstream's connection never ended (via %s entering %s, upstream %s)", via, entry.ID, kind)
+				Missf(c, "C07: the client closed the tunnel but the upstream's connection never ended (via %s entering %s, upstream %s)", via, entry.ID, kind)
 			}
 		}
 		if !Eventually(Deadline(), func() bool { return cl.Nodes[0].Srv.VerifUpstream().VerifOpenStreams() == 0 }) {
-			c.Fatalf("C07: after both ends finished, the server still holds %d open streams to the upstream", cl.Nodes[0].Srv.VerifUpstream().VerifOpenStreams())
+			Missf(c, "C07: after both ends finished, the server still holds %d open streams to the upstream", cl.Nodes[0].Srv.VerifUpstream().VerifOpenStreams())
 		}
 	})
 }
